@@ -584,30 +584,37 @@ inductive View where
   | localAwait (f : FId)
   deriving Repr, Inhabited
 
-/-- where a view is rendered: outside every `Suspense` (`top`) or as the awaited children of a `Suspense`
-    (`direct`: `children.resolve()` has resolved every `Suspend` here and — since fix-c07-4, `Suspend::resolve`
-    resolves its output too — every `Suspend` in their outputs).  `nested` is only used by `compileOld`: the output
-    of a `Suspend` under a `Suspense` before the repair (`use_context::<SuspenseContext>()` is `Some`, nobody awaited it). -/
+/-- where a view is rendered: outside every `Suspense` (`top`), as the children a `Suspense` walks and then resolves
+    (`direct`), or inside the output of a `Suspend` / of a resource read among them (`nested`: since fix-c07-4
+    `children.resolve()` resolves every `Suspend` there too, but a *synchronous* resource read there is evaluated for
+    the first time during that resolution — F-C07-6).  `compileOld` is the code before fix-c07-4. -/
 inductive Ctx where
   | top | direct | nested
   deriving DecidableEq, Repr
 
 mutual
-/-- the base futures `children.resolve()` of a `Suspense` waits for -/
-def directDeps : View → List FId
-  | .raw _ => []
-  | .seq vs => directDepsL vs
-  | .suspend f v => f :: directDeps v
-  | .suspense _ _ _ => []
-  | .eb vs => directDepsL vs
-  | .resSuspend f v => f :: directDeps v
-  | .resRead f v => f :: directDeps v
-  | .localRead => []
-  | .localAwait _ => []
-def directDepsL : List View → List FId
-  | [] => []
-  | v :: vs => directDeps v ++ directDepsL vs
+/-- the base futures a `Suspense` waits for: the server resources its children read while it walks them
+    (`dry_resolve`; `late = false`) and every `Suspend` that `children.resolve()` meets.  A resource read that is first
+    evaluated during that resolution (`late = true`: inside the output of a `Suspend` or of another read) registers its
+    task too late — the boundary does not wait for it (F-C07-6); its output is taken to be synchronous. -/
+def depsOf : Bool → View → List FId
+  | _, .raw _ => []
+  | late, .seq vs => depsOfL late vs
+  | _, .suspend f v => f :: depsOf true v
+  | _, .suspense _ _ _ => []
+  | late, .eb vs => depsOfL late vs
+  | _, .resSuspend f v => f :: depsOf true v
+  | false, .resRead f v => f :: depsOf true v
+  | true, .resRead _ _ => []
+  | _, .localRead => []
+  | _, .localAwait _ => []
+def depsOfL : Bool → List View → List FId
+  | _, [] => []
+  | late, v :: vs => depsOf late v ++ depsOfL late vs
 end
+
+def directDeps (v : View) : List FId := depsOf false v
+def directDepsL (vs : List View) : List FId := depsOfL false vs
 
 mutual
 /-- a `LocalResource` is read while the boundary walks its children (`dry_resolve`): the boundary renders its
@@ -656,8 +663,8 @@ def compile (ooo : Bool) : Ctx → View → List Op
       (Op.nextId ::
         (if ooo then [Op.fallback "<!>".toList, Op.ooo fut true (compile ooo .top v) none]
          else [Op.async fut (compile ooo .top v)]))]
-  | .direct, .suspend _ v => compile ooo .direct v
-  | .nested, .suspend _ v => compile ooo .direct v
+  | .direct, .suspend _ v => compile ooo .nested v
+  | .nested, .suspend _ v => compile ooo .nested v
   | _, .suspense fb nonce vs =>
     if localNowL vs then
       -- `fut.now_or_never()` is `Some(None)`: the fallback is rendered in place, nothing is streamed
@@ -682,9 +689,14 @@ def compile (ooo : Bool) : Ctx → View → List Op
       (Op.nextId ::
         (if ooo then [Op.fallback "<!>".toList, Op.ooo fut true (compile ooo .top v) none]
          else [Op.async fut (compile ooo .top v)]))]
-  | .direct, .resSuspend _ v => compile ooo .direct v
-  | .nested, .resSuspend _ v => compile ooo .direct v
-  | c, .resRead _ v => compile ooo c v
+  | .direct, .resSuspend _ v => compile ooo .nested v
+  | .nested, .resSuspend _ v => compile ooo .nested v
+  | .top, .resRead _ v => compile ooo .top v
+  | .direct, .resRead _ v => compile ooo .nested v
+  | .nested, .resRead f v =>
+    -- F-C07-6: first evaluated while the boundary resolves its children: `res.get()` is `None` unless the
+    -- resource has loaded by then, nobody waits for it, `None` renders as `<!>`
+    [Op.ite { deps := [f], tick := false } (compile ooo .nested v) [Op.sync "<!>".toList]]
   | _, .localRead => []
   | _, .localAwait _ => []
 def compileL (ooo : Bool) : Ctx → List View → List Op
